@@ -363,5 +363,57 @@ class SeveralOnOneLine(Part):
         return res
 
 
+class PunctuatedHashes(Part):
+    name = "hash_shaped_tokens_with_every_printable_character"
+    desc = "lone $1$ / $9$ tokens that contain each printable non-space ASCII character (quotes and ';' excepted) at the front, in the middle and at the end, under unknown keywords: replaced as a whole, output independent of the content"
+
+    def __init__(self, tier, seed):
+        self.tier, self.seed = tier, seed
+
+    def cases(self):
+        return [{"c": c} for c in map(chr, range(33, 127)) if c not in "\"';" and not c.isalnum()]
+
+    def run(self, case):
+        res = Res()
+        c = case["c"]
+        la, lb, meta = [], [], []
+        for magic, (ta, tb) in (("$1$", ("abcd$29GNUbipw18FMT", "wxyz$Zk3vQ9pLm2Xr7Ty")),
+                                ("$9$", ("QnetznCO1hKMXcyMXN", "kqTF69puBIzCpB1RSy"))):
+            for pos in ("front", "middle", "end"):
+                def tok(body):
+                    if pos == "front":
+                        return magic + c + body
+                    if pos == "middle":
+                        return magic + body[:9] + c + body[9:]
+                    return magic + body + c
+                for frame in ("{}", "bind-thing {} here", "  x-y ( {} )"):
+                    if "only" in case and case["only"] != [magic, pos, frame]:
+                        continue
+                    la.append(frame.format(tok(ta)))
+                    lb.append(frame.format(tok(tb)))
+                    meta.append((magic, pos, frame, ta, tb))
+        ga, _ = secdom.run_lines_isolated(la, "saltForTest")
+        gb, _ = secdom.run_lines_isolated(lb, "saltForTest")
+        for A, B, oa, ob, (magic, pos, frame, ta, tb) in zip(la, lb, ga, gb, meta):
+            res.evals += 1
+            res.nt(A)
+            rc = {"c": c, "only": [magic, pos, frame]}
+            stem = "%s|%s|char=%s" % (magic, pos, c)
+            if isinstance(oa, tuple) or isinstance(ob, tuple):
+                if isinstance(oa, tuple) != isinstance(ob, tuple):
+                    res.violation("exception-depends-on-secret|" + stem, "%r -> %r ; %r -> %r" % (A, oa, B, ob), rc)
+                continue
+            res.out((oa == ob, oa == A))
+            # nothing of the token after the magic may survive: neither half of the body
+            left = [p for p in (ta[:9], ta[9:]) if len(p) >= 6 and p in oa]
+            if oa != ob:
+                res.violation("output-depends-on-secret|" + stem, "input A %r -> %r ; input B %r -> %r" % (A, oa, B, ob), rc)
+            elif left:
+                res.violation("secret-survives|" + stem, "input %r -> %r keeps %r" % (A, oa, left[0]), rc)
+        if "only" not in case:
+            res.samples.append({"character": c, "lines": len(la)})
+        return res
+
+
 def parts(tier, seed):
-    return [Forms(tier, seed), Standalone(tier, seed), Sequences(tier, seed), SeveralOnOneLine(tier, seed)]
+    return [Forms(tier, seed), Standalone(tier, seed), Sequences(tier, seed), SeveralOnOneLine(tier, seed), PunctuatedHashes(tier, seed)]
